@@ -54,7 +54,11 @@ func c19Prop(c *sim.Case) {
 			f.literal = fmt.Sprintf("literal-%d", i)
 		}
 		ff := f
+		// half of the filters sit behind an assembled server filter (which may keep things from one request to the next),
+		// some of those find their endpoints through discovery
+		viaServer := sim.Bool(c, "via-server")
 		f.w = sim.NewWorld(c, sim.WorldOpts{ClientID: fmt.Sprintf("client-%d", i), ClientSecret: f.literal + "x", CookiePrefix: fmt.Sprintf("f%d", i),
+			ViaServer: viaServer, Discovery: viaServer && sim.Bool(c, "discovery"),
 			CfgHook: func(w *sim.World, cfg *oidcv1.OIDCConfig) *oidcv1.OIDCConfig {
 				if ff.refName != "" {
 					cfg.ClientSecretConfig = &oidcv1.OIDCConfig_ClientSecretRef{ClientSecretRef: &oidcv1.OIDCConfig_SecretReference{Name: ff.refName, Namespace: ff.refNS}}
